@@ -100,6 +100,8 @@ pub struct PrintOpts {
     pub anchors_negm: bool,
     /// possessive quantifier `X*+` as atomic group `(?>X*)`
     pub poss_as_atomic: bool,
+    /// redundant non-capturing groups: the members of every concatenation are wrapped in `(?:..)` two at a time
+    pub redundant_groups: bool,
     /// atomic group around a quantified atom, `(?>X*)` / `(?>X*?)`, as the possessive suffix `X*+` / `X*?+`
     pub atomic_as_poss: bool,
     /// newline literal as a raw newline character instead of `\n`
@@ -257,6 +259,28 @@ impl<'o> P<'o> {
                 A::WordEnd => self.t("\\>"),
                 A::EndZ => self.t("\\Z"),
             },
+            Concat(v) if self.opts.redundant_groups && v.len() >= 2 => {
+                if prec > 1 {
+                    self.t("(?:");
+                }
+                for chunk in v.chunks(2) {
+                    // inline flag settings must stay where they are (they act on the rest of the enclosing group)
+                    if chunk.iter().any(|c| matches!(c, SetFlags(..))) {
+                        for c in chunk {
+                            self.print(c, 2);
+                        }
+                        continue;
+                    }
+                    self.t("(?:");
+                    for c in chunk {
+                        self.print(c, 2);
+                    }
+                    self.t(")");
+                }
+                if prec > 1 {
+                    self.t(")");
+                }
+            }
             Concat(v) => {
                 if prec > 1 {
                     self.t("(?:");
